@@ -16,6 +16,8 @@ from concurrent.futures import ThreadPoolExecutor
 from lib import common as C
 from lib import xhrun
 
+from . import contract
+
 sys.path.insert(0, os.path.join(C.VERIF, "xh"))
 
 H = "harness_prog"
@@ -345,11 +347,14 @@ def main(pid):
     d = describe(pid)
     ev.assumptions = list(d["assumptions"])
     conds, extra = (conds_c15 if pid == "C15" else conds_c20)(tier)
+    cfut = contract.start(pid) if pid == "C15" else None
     with ThreadPoolExecutor(max_workers=1) as ex:
         fut = ex.submit(sanity, pid)
         results = xhrun.run_conditions(pid, conds)
         san = fut.result()
     code = xhrun.summarize(pid, results, ev)
+    if cfut is not None:
+        code = contract.finish(pid, cfut, ev, code)
     cov = ev.coverage
     cov.update(extra)
     if pid == "C20":
